@@ -32,6 +32,9 @@ def case_fn(c):
         fails = oracle.check_jacobian(c["model"], seed=c.get("seed", 0), sparse=c.get("sparse", False))
     elif kind == "frontends":
         fails = oracle.check_frontends(c["model"], c["route"], c["vec"], seed=c.get("seed", 0), style=c.get("style", 0))
+    elif kind == "grid":
+        fails = oracle.check_grid_search(c["model"], c["grid"], c["param_map"], c["outputs"], vectorize=c["vec"], permute=c.get("permute", False),
+                                         as_frame=c.get("as_frame"), inputs=c.get("inputs"))
     elif kind == "outputs":
         fails = oracle.check_outputs(c["model"], c["request"], c["form"], c["vec"])
     else:
